@@ -357,15 +357,29 @@ def run(ctx):
     else:
         ex = common.exit_sites(P, f)
         rs = "|".join(sorted(ctx.roots(ex[0][3]))) if len(ex) == 1 else "?"
-        m = re.match(r"^A:bignumber::math::Uint256\{0=A:bigint::(\w+::)*U256\{0=A:array\[(.*)\]\}\}$", rs)
         good = False
-        if m:
-            limbs = m.group(2).split(";")
-            sp_root = "C:bignumber::math::split_u128@%s" % f.path
-            good = (len(limbs) == 4 and limbs[0].startswith(sp_root) and limbs[0].endswith(".1") and limbs[1].startswith(sp_root) and limbs[1].endswith(".0")
-                    and limbs[2] == "K:0" and limbs[3] == "K:0")
-            spc = [x for x in common.walk(ex[0][3]) if x[0] == "call" and isinstance(x[3], str) and x[3].endswith("split_u128")]
-            good = good and spc and set(ctx.roots(spc[0][4][0])) == {P_(f, 0)}
+        v = common.inline_helpers(P, ex[0][3]) if len(ex) == 1 else None
+        limbs = None
+        if v is not None and v[0] == "agg" and len(v[3]) == 1 and v[3][0][1][0] == "agg" and len(v[3][0][1][3]) == 1:
+            arr = v[3][0][1][3][0][1]
+            if arr[0] == "agg" and arr[1] == "array" and len(arr[3]) == 4:
+                limbs = [x for _, x in arr[3]]
+        if limbs:
+            def strip(x):
+                while x[0] == "cast":
+                    x = x[2]
+                return x
+            lo, hi = strip(limbs[0]), strip(limbs[1])
+            prm = ("param", f.path, 0)
+            lo_ok = lo[0] == "binop" and lo[1] == "BitAnd" and lo[2] == prm and lo[3] == ("const", "int", 0xFFFFFFFFFFFFFFFF)
+            hi_ok = hi[0] == "binop" and hi[1] in ("Shr", "ShrUnchecked") and hi[2] == prm and strip(hi[3]) == ("const", "int", 64)
+            # not inlined (public splitter): components .1 / .0 of split_u128(val)
+            if not (lo_ok and hi_ok):
+                sp_ = [x for x in common.walk(v) if x[0] == "call" and isinstance(x[3], str) and x[3].endswith("split_u128")]
+                if sp_ and set(ctx.roots(sp_[0][4][0])) == {P_(f, 0)}:
+                    lo_ok = limbs[0] == ("proj", sp_[0], ("f", 1))
+                    hi_ok = limbs[1] == ("proj", sp_[0], ("f", 0))
+            good = lo_ok and hi_ok and limbs[2] == ("const", "int", 0) and limbs[3] == ("const", "int", 0)
         if good:
             r4.site("From<u128>: limbs [low, high, 0, 0] of split_u128(val)")
         else:
